@@ -128,3 +128,16 @@ prop(
     lemmas=True,
     bounded="bounded.c14_sections",
 )
+
+prop(
+    "C03",
+    ["contracts.runtime"],
+    "proof",
+    "contract-based deductive verification of the registration chain: exactly-once hand-over per link (adopt, MetaRunner.register_payload, each runner's register_payload, ServiceUnit.start), 'raises nothing' as a no-escape obligation for every state of the runtime",
+    "each link hands the payload on exactly once with exactly the arguments and in the requested flavour, for all argument lists and queue contents (loops by invariants); adopt's 'never raises' is proved for every state (idle, launching, running, closing, finished) of the published runner map; " + CONC_NOTE,
+    "trusted: pyvc's Python semantics; assumed contracts of threading.Thread, call_soon_threadsafe, create_task, trio.from_thread.run, trio memory channels, functools.partial; write/write races between threads are not modelled",
+    trusted=["assumed: Thread(target=f,args=a,daemon=True).start() runs f(*a) once on a fresh daemon thread; call_soon_threadsafe / create_task / nursery.start_soon run the callable once in the loop's / run's thread",
+             "assumed: trio.from_thread.run raises RunFinishedError (run over), Cancelled, RuntimeError (called from the trio thread) or yields the callee's outcome; channel send raises Closed/BrokenResourceError when closed",
+             "NOT COVERED: write/write races (an adopt that read 'no runner' before launch and appends after the flush), GIL-atomicity of set(ws.data)"],
+    design_ref="5/C03",
+)
